@@ -12,7 +12,9 @@ LEVEL = 'exploration'
 TECHNIQUE = 'bounded exhaustive enumeration of API-built trees x alphabets x output-option subsets, independent decoders of every format'
 
 SPECIAL = ['&', '<"\'>', 'ä日', '(', ')', 'a[b', '{}', '-LRB-', 'x' * 7, 'x' * 8, 'y' * 15, 'z' * 16, 'q' * 17, '#', '*T*-1',
-           'v' * 23, 'w' * 24, 'u' * 33]
+           'v' * 23, 'w' * 24, 'u' * 33,
+           # text that looks like an XML reference, and words that are not in Unicode NFC (must come back code point by code point)
+           '&amp;', '&#8217;', '&lt;x&gt;', 'u\u0308ber', 'caf\u00e9', 'cafe\u0301', '\u212b', '\u2126']
 LABEL_OPTS = ['gf', 'gf_terminals', 'mark_heads_marking', 'boyd_split_marking', 'boyd_split_numbering']
 FORMAT_OPTS = {
     'export': ['export_four'] + LABEL_OPTS + ['gf_separator'],
